@@ -246,6 +246,31 @@ def fread {S : Type} (cp : Comp S) (fs : Nat) (st : FSt) (p : Nat) : (Bytes × B
   ((avail.take p, avail.isEmpty && decide (p ≠ 0)),
    { src := r.2, trace := tr, consumed := st.consumed + (avail.take p).length, closed := closed })
 
+/-! a source that FAILS: after its chunks `Read` returns an error instead of io.EOF -/
+
+inductive RRes where
+  | ok | eof | err
+deriving DecidableEq, Repr
+
+/-- `Read` over a possibly failing source.  CopyN meets the end of the source iff fewer than `fs` bytes
+    are left; the non-EOF error is then returned at once (`return 0, err`): what this call copied stays
+    written to the compressor, unflushed, and nothing is handed out. -/
+def freadX {S : Type} (cp : Comp S) (fs : Nat) (failing : Bool) (st : FSt) (p : Nat) : (Bytes × RRes) × FSt :=
+  if failing && decide (st.src.flatten.length < fs) then
+    (([], .err), { st with src := (copyN st.src fs).2, trace := st.trace ++ (copyN st.src fs).1.map Op.w })
+  else
+    (((fread cp fs st p).1.1, if (fread cp fs st p).1.2 then .eof else .ok), (fread cp fs st p).2)
+
+/-- rule table after two rule files were offered in turn (`CompressRuleTable.Update` replaces the table;
+    a file that fails the checks leaves it as it was): the action in force -/
+def actionInForce (first second : Option (Load × Cmd × Nat)) : Option (Cmd × Nat) :=
+  match second with
+  | some (.ok, c, f) => some (c, f)
+  | _ =>
+    match first with
+    | some (.ok, c, f) => some (c, f)
+    | _ => none
+
 /-- a reader calling `Read` with buffer sizes `ps` until the first io.EOF -/
 def session {S : Type} (cp : Comp S) (fs : Nat) : FSt → List Nat → List Bytes × Bool × FSt
   | st, [] => ([], false, st)
